@@ -108,10 +108,13 @@ pub struct Profile {
     /// (streams left open), so that more pushed streams want to be active than the client advertised (no extra PRNG draws
     /// for the other profiles)
     pub pushlimit: bool,
+    /// C04: a client whose identifier space is nearly used up (initial_stream_id close to 2^31-1): requests after exhaustion,
+    /// late peer frames on finished (forgotten) streams followed by further requests (no extra PRNG draws for the other profiles)
+    pub idspace: bool,
 }
 
 pub fn profile(name: &str) -> Profile {
-    let base = Profile { name: "mixed", w_conn_poll: 30, w_peer: 30, w_app: 40, w_io: 3, w_chaos: 0, w_end: 1, max_data: 3000, tiny_windows: false, small_limits: false, recv_heavy: false, control: false, queue: false, backpressure: false, starve: false, fuzz: false, race: false, late_reset: false, bufcap: false, legal_peer: false, idle: false, inject: false, abuse: false, pushlimit: false };
+    let base = Profile { name: "mixed", w_conn_poll: 30, w_peer: 30, w_app: 40, w_io: 3, w_chaos: 0, w_end: 1, max_data: 3000, tiny_windows: false, small_limits: false, recv_heavy: false, control: false, queue: false, backpressure: false, starve: false, fuzz: false, race: false, late_reset: false, bufcap: false, legal_peer: false, idle: false, inject: false, abuse: false, pushlimit: false, idspace: false };
     match name {
         "flow" => Profile { name: "flow", tiny_windows: true, max_data: 400, w_io: 6, ..base },
         "limits" => Profile { name: "limits", small_limits: true, max_data: 200, ..base },
@@ -124,10 +127,12 @@ pub fn profile(name: &str) -> Profile {
         "legal" => Profile { name: "legal", legal_peer: true, w_end: 0, ..base },
         "bp" => Profile { name: "bp", backpressure: true, max_data: 3000, w_io: 14, w_peer: 32, w_app: 36, w_conn_poll: 30, ..base },
         "bplimits" => Profile { name: "bplimits", backpressure: true, small_limits: true, max_data: 3000, w_io: 14, w_peer: 40, w_app: 28, w_conn_poll: 30, ..base },
+        "idspace" => Profile { name: "idspace", idspace: true, max_data: 200, w_end: 0, ..base },
         "pushlimit" => Profile { name: "pushlimit", small_limits: true, pushlimit: true, max_data: 200, w_peer: 35, w_app: 40, w_conn_poll: 25, ..base },
         "queue" => Profile { name: "queue", small_limits: true, queue: true, max_data: 100, w_app: 55, w_peer: 25, w_conn_poll: 20, w_io: 2, ..base },
         "bufcap" => Profile { name: "bufcap", bufcap: true, max_data: 30, w_app: 55, w_peer: 15, w_conn_poll: 30, w_io: 1, w_end: 0, ..base },
         "starve" => Profile { name: "starve", starve: true, max_data: 60, w_app: 55, w_peer: 20, w_conn_poll: 25, w_io: 1, w_end: 0, ..base },
+        "starvedrop" => Profile { name: "starvedrop", starve: true, idle: true, max_data: 60, w_app: 55, w_peer: 20, w_conn_poll: 25, w_io: 1, w_end: 0, ..base },
         "fuzz" => Profile { name: "fuzz", fuzz: true, w_chaos: 22, w_io: 8, w_peer: 30, w_app: 25, w_conn_poll: 30, max_data: 600, ..base },
         "control" => Profile { name: "control", w_end: 2, w_io: 5, control: true, ..base },
         "inject" => Profile { name: "inject", backpressure: true, inject: true, max_data: 3000, w_io: 14, w_peer: 30, w_app: 38, w_conn_poll: 18, w_end: 0, ..base },
@@ -206,6 +211,9 @@ pub fn gen_config(rng: &mut Rng, client: bool, p: &Profile) -> Config {
     }
     if rng.chance(1, 6) {
         c.peer_settings.push((1, *rng.pick(&[0u32, 100, 4096, 10000])));
+    }
+    if p.idspace && client {
+        c.initial_stream_id = Some(*rng.pick(&[0x7fff_ffffu32, 0x7fff_fffd, 0x7fff_fffb, 0x7fff_fff9]));
     }
     if p.abuse {
         c.max_concurrent_streams = Some(*rng.pick(&[1u32, 2, 5, 20]));
@@ -1330,6 +1338,33 @@ pub fn run_random(d: &mut Driver, rng: &mut Rng, p: &Profile, steps: usize) {
                     json!({"op":"conn_poll"}),
                 ]);
                 continue;
+            }
+        }
+        if p.idspace && d.cfg.role_client {
+            if let Some(op) = pv.queue.pop_front() {
+                log_op(&op);
+                d.exec(&op);
+                done += 1;
+                continue;
+            }
+            if rng.chance(1, 8) {
+                // a late frame for a stream that has finished in both directions (possibly forgotten), then another request
+                let cand = pv.streams.iter().find(|s| !s.initiated_by_peer && !s.peer_open && !s.ep_open && s.peer_head_sent).map(|s| s.sid);
+                if let Some(sid) = cand {
+                    let late = if rng.chance(1, 2) {
+                        peer_bytes(wire::data(sid, b"late", false, None), json!({"t":"DATA","sid":sid,"len":4,"eos":false,"pad":null,"late":true}))
+                    } else {
+                        let block = wire::hpack_literal(&[(b"x-late".to_vec(), b"t".to_vec())]);
+                        peer_bytes(wire::headers(sid, &block, true, 0), json!({"t":"HEADERS","sid":sid,"eos":true,"trailers":true,"late":true}))
+                    };
+                    pv.queue.extend(vec![
+                        late,
+                        json!({"op":"conn_poll"}),
+                        json!({"op":"send_request","sr":0,"eos":true,"method":"GET"}),
+                        json!({"op":"conn_poll"}),
+                    ]);
+                    continue;
+                }
             }
         }
         if p.pushlimit && d.cfg.role_client {
